@@ -829,6 +829,39 @@ def size_covers(sa, N, sz, lo, hi, p):
     return None, 'unrecognised size expression'
 
 
+def check_construct_patterns(ctx, tu, tag):
+    """R-C14-5 (template level): every construct member of aligned_allocator - also a variadic construct(U*, Args&&...) that is
+    only instantiated by the containers - creates the element with direct-initialisation `new (p) U(args...)`.  With
+    list-initialisation `U{args...}` a type that has an initializer_list constructor gets its copy/move arguments wrapped in
+    a one-element list (std::vector<X>{v} is a vector holding v), so relocated elements are not copies."""
+    R = 'R-C14-5'
+    n = 0
+    file = 'rkcommon/containers/aligned_allocator.h'
+    seen = set()
+    for f in tu.functions.values():
+        if f.get('rec') != ALLOC or f['q'].rsplit('::', 1)[-1] != 'construct' or tu.body(f) is None:
+            continue
+        pat = tu.functions.get(f.get('pat')) if f.get('pat') else f
+        sig = (pat or f)['fty'] if f['dep'] or pat else f['fty']
+        for x in tu.walk(tu.body(f)):
+            if x.get('kind') != 'CXXNewExpr' or (tu.loc(x), sig) in seen:
+                continue
+            seen.add((tu.loc(x), sig))
+            n += 1
+            inst = 'aligned_allocator::construct %s at %s [%s]' % (f['fty'], tu.loc(x), tag)
+            style = x.get('initStyle')
+            if style == 'list':
+                ctx.violation(R, inst, 'the element is created with list-initialisation `new (p) U{...}`: for an element type with an '
+                              'initializer_list constructor the copy/move made when the container relocates or inserts is a one-element list '
+                              'holding the source instead of a copy of it; required: direct-initialisation `new (p) U(...)`', tu.loc(x),
+                              key='%s|%s|aligned_allocator::construct|list-initialisation' % (R, file))
+            elif style in ('call', None, 'c') or style == 'parens':
+                ctx.ok(R, inst, 'direct-initialisation', tu.loc(x), nontrivial=False)
+            else:
+                ctx.undecided(R, inst, 'unrecognised initialisation style `%s` of the placement-new' % style, tu.loc(x))
+    return n
+
+
 def check_allocate_paths(ctx, R, inst, key, tu, f, paths, sz, A, M):
     N = params(f)[0]
     Na = N.as_atom()
@@ -1169,6 +1202,7 @@ def run(ctx):
         n1 += check_malloc_cpp(ctx, tu, tag, keytag)
     for (c, std, tag), tu in zip(drv, tus[len(mal):]):
         n2 += check_allocator(ctx, tu, tag)
+        check_construct_patterns(ctx, tu, tag)
         n3 += check_typed_malloc(ctx, tu, tag)
         n4 += check_is_aligned(ctx, tu, tag)
     nw = check_witness(ctx, 'clang++', 'c++11', 'clang++ c++11')
